@@ -117,8 +117,17 @@ def name_match(nm, k):
     return False
 
 
+# items that a template renames in the verified text (`as=`): source path -> name Verus prints
+try:
+    RENAMES = json.load(open(os.path.join(VERIF, 'contracts', 'renames.json')))
+except Exception:
+    RENAMES = {}
+
+
 def verus_name(meta_path):
     """'character_sets.rs::CharSet::inter' -> name as Verus prints it (sans crate)."""
+    if meta_path in RENAMES:
+        return RENAMES[meta_path]
     p = meta_path.split('::', 1)[1]
     segs = asm.rsitems.split_path(p)
     out = []
